@@ -592,9 +592,13 @@ def make_slots(pr):
     def slots(params):
         out = []
         for k in names:
-            v = jnp.atleast_1d(params.eq_params[k]).ravel()
-            c = jnp.asarray(readers[k][: v.size], dtype=v.dtype)
-            out.append(jnp.sum(c * v))
+            # component-indexed read along the FIRST axis (not a flattening one): a parameter that reaches the
+            # equation / network with a spurious leading axis (e.g. a one-row batch left unmapped) changes the result
+            v = jnp.atleast_1d(params.eq_params[k])
+            acc = jnp.zeros((), dtype=v.dtype)
+            for j in range(v.shape[0]):
+                acc = acc + readers[k][j] * jnp.reshape(v[j], ())
+            out.append(acc)
         if not out:
             return jnp.zeros((0,))
         return jnp.stack(out)
@@ -988,6 +992,13 @@ def gen_cases(rng, tier):
                     if obs is not None and c["U"] == 2 and rng.random() < 0.5:
                         obs["unknowns"] = ["u0"]
                 add(**c)
+    # (1b) in every run: a parameter batch of exactly ONE row for a vector-valued key (a one-row batch is a batch:
+    # row 0, not the (1, k) table, reaches the network and the equation), next to an unbatched scalar key
+    for kind in singles:
+        base = kind
+        keys = [{"name": "nu", "shape": "(k,)", "k": 2}, {"name": "a", "shape": "()", "k": 2}]
+        add(kind=kind, d=1, m=1, keys=keys, batched=["nu"], B=1, obs=None, het=None, malformed=None,
+            terms={"dyn": True, "ic": base != "statio", "boundary": False, "norm": False})
     # (2) malformed batches: a key the caller does not have; rows of different lengths
     for kind in (singles if not quick else rng.sample(singles, 2)) + ["sys_ode"]:
         for mal in ("unknown_key", "size_mismatch"):
